@@ -65,35 +65,35 @@ type Cancel struct {
 
 // Spec - one run: construction history, outcome plan, mode, schedule policy, cancel point.
 type Spec struct {
-	N       int     `json:"n"`
-	Hist    []Call  `json:"hist"`
-	Plan    [][]int `json:"plan"` // per task: outcome per attempt (last entry repeats)
-	Serial  bool    `json:"serial,omitempty"`
-	MaxPar  int     `json:"maxpar,omitempty"` // 0 = not set
-	Buffer  bool    `json:"buffer,omitempty"`
-	Policy  string  `json:"policy"` // dfs, rand, all, eager
-	Prefix  []int   `json:"prefix,omitempty"`
-	PSeed   uint64  `json:"pseed,omitempty"`
-	Cancel  Cancel  `json:"cancel"`
-	HoldUS  int     `json:"hold_us,omitempty"` // eager policy: how long a task holds (max, microseconds)
-	Chunks  int     `json:"chunks,omitempty"`
+	N      int     `json:"n"`
+	Hist   []Call  `json:"hist"`
+	Plan   [][]int `json:"plan"` // per task: outcome per attempt (last entry repeats)
+	Serial bool    `json:"serial,omitempty"`
+	MaxPar int     `json:"maxpar,omitempty"` // 0 = not set
+	Buffer bool    `json:"buffer,omitempty"`
+	Policy string  `json:"policy"` // dfs, rand, all, eager
+	Prefix []int   `json:"prefix,omitempty"`
+	PSeed  uint64  `json:"pseed,omitempty"`
+	Cancel Cancel  `json:"cancel"`
+	HoldUS int     `json:"hold_us,omitempty"` // eager policy: how long a task holds (max, microseconds)
+	Chunks int     `json:"chunks,omitempty"`
 	// Pre - the same Graph object is first run once with PreTasks trivial independent tasks under limit PreMaxPar
 	// (uncontrolled, not logged); only then the history is applied, the limit is set to MaxPar and the monitored run starts.
-	PreTasks   int  `json:"pre_tasks,omitempty"`
-	PreMaxPar  int  `json:"pre_maxpar,omitempty"`
-	SerialMask int  `json:"serial_mask,omitempty"` // bit g set: graph g of a shared-task workload runs in serial mode
-	NGraphs int     `json:"ngraphs,omitempty"` // >1: several graphs over the same Tasks run concurrently (eager only)
+	PreTasks   int `json:"pre_tasks,omitempty"`
+	PreMaxPar  int `json:"pre_maxpar,omitempty"`
+	SerialMask int `json:"serial_mask,omitempty"` // bit g set: graph g of a shared-task workload runs in serial mode
+	NGraphs    int `json:"ngraphs,omitempty"`     // >1: several graphs over the same Tasks run concurrently (eager only)
 }
 
 // Model - what the history is supposed to mean (from the documented API semantics).
 type Model struct {
-	Tasks    []int       // task indices that are part of the graph
-	Deps     map[int][]int
-	Retries  map[int]int
-	DefErr   bool // the definition recorded an error (duplicate edge, nil task)
-	Cycle    bool
-	ReAdd    bool // a task was re-added after it was already known
-	InGraph  map[int]bool
+	Tasks        []int // task indices that are part of the graph
+	Deps         map[int][]int
+	Retries      map[int]int
+	DefErr       bool // the definition recorded an error (duplicate edge, nil task)
+	Cycle        bool
+	ReAdd        bool // a task was re-added after it was already known
+	InGraph      map[int]bool
 	RetriesExact bool
 }
 
@@ -237,30 +237,30 @@ func (e Event) String() string {
 
 // Trace - everything recorded about one run.
 type Trace struct {
-	Events     []Event  `json:"events"`
-	RunErr     []string `json:"run_err"`     // per graph: "" = nil
-	ErrIsCycle []bool   `json:"err_is_cycle"`
-	ErrAsErrors []bool  `json:"err_as_errors"`
-	ErrEntries [][]ErrEntry `json:"err_entries"`
-	LogLines   []string `json:"log_lines,omitempty"`
-	Peak       int      `json:"peak"`
-	Choices    [][2]int `json:"choices,omitempty"` // (chosen, alternatives) per controlled release
-	Deadlock   bool     `json:"deadlock,omitempty"`
-	DeadlockSnap string `json:"deadlock_snapshot,omitempty"`
-	Timeout    string   `json:"timeout,omitempty"`
-	IdleTicks  int      `json:"idle_ticks"`
-	Quiescent  []QPoint `json:"quiescent,omitempty"`
-	ParkedAtReturn int  `json:"parked_at_return,omitempty"`
-	Output     string   `json:"output,omitempty"`
-	OutputWrites int    `json:"output_writes,omitempty"`
-	SortIDs    []string `json:"sort_ids,omitempty"`
-	SortErr    string   `json:"sort_err,omitempty"`
-	SerialCounter int   `json:"serial_counter"`
-	TaskCounters []int  `json:"task_counters,omitempty"`
-	CancelSeq  int      `json:"cancel_seq,omitempty"`
-	LateEntriesAfterCancel int `json:"late_entries_after_cancel,omitempty"`
-	TicksAfterCancel int `json:"ticks_after_cancel,omitempty"`
-	Stalled string `json:"stalled,omitempty"`
+	Events                 []Event      `json:"events"`
+	RunErr                 []string     `json:"run_err"` // per graph: "" = nil
+	ErrIsCycle             []bool       `json:"err_is_cycle"`
+	ErrAsErrors            []bool       `json:"err_as_errors"`
+	ErrEntries             [][]ErrEntry `json:"err_entries"`
+	LogLines               []string     `json:"log_lines,omitempty"`
+	Peak                   int          `json:"peak"`
+	Choices                [][2]int     `json:"choices,omitempty"` // (chosen, alternatives) per controlled release
+	Deadlock               bool         `json:"deadlock,omitempty"`
+	DeadlockSnap           string       `json:"deadlock_snapshot,omitempty"`
+	Timeout                string       `json:"timeout,omitempty"`
+	IdleTicks              int          `json:"idle_ticks"`
+	Quiescent              []QPoint     `json:"quiescent,omitempty"`
+	ParkedAtReturn         int          `json:"parked_at_return,omitempty"`
+	Output                 string       `json:"output,omitempty"`
+	OutputWrites           int          `json:"output_writes,omitempty"`
+	SortIDs                []string     `json:"sort_ids,omitempty"`
+	SortErr                string       `json:"sort_err,omitempty"`
+	SerialCounter          int          `json:"serial_counter"`
+	TaskCounters           []int        `json:"task_counters,omitempty"`
+	CancelSeq              int          `json:"cancel_seq,omitempty"`
+	LateEntriesAfterCancel int          `json:"late_entries_after_cancel,omitempty"`
+	TicksAfterCancel       int          `json:"ticks_after_cancel,omitempty"`
+	Stalled                string       `json:"stalled,omitempty"`
 }
 
 type ErrEntry struct {
@@ -271,13 +271,13 @@ type ErrEntry struct {
 
 // QPoint - a quiescent point seen by the controller.
 type QPoint struct {
-	Seq      int   `json:"seq"`
-	Parked   []int `json:"parked"`
-	InProg   int   `json:"inprog"`
-	Done     int   `json:"done"`
-	Pending  int   `json:"pending"`
-	Skip     int   `json:"skip"`
-	Fresh    bool  `json:"fresh"` // snapshot.done == final exits known to the controller
+	Seq     int   `json:"seq"`
+	Parked  []int `json:"parked"`
+	InProg  int   `json:"inprog"`
+	Done    int   `json:"done"`
+	Pending int   `json:"pending"`
+	Skip    int   `json:"skip"`
+	Fresh   bool  `json:"fresh"` // snapshot.done == final exits known to the controller
 }
 
 // ------------------------------------------------------------------------------------------------
@@ -350,10 +350,10 @@ type runner struct {
 	model *Model
 	names []string
 
-	mu     sync.Mutex
-	seq    int
-	events []Event
-	parked []*parkedTask
+	mu         sync.Mutex
+	seq        int
+	events     []Event
+	parked     []*parkedTask
 	finalExits int // attempts after which the task goroutine reports to the scheduler
 
 	live int32
@@ -363,13 +363,13 @@ type runner struct {
 	serialCtr    int   // plain, incremented by every task in serial mode
 	taskCounters []int // plain, per Task (shared-task workloads)
 
-	attempts [][]int32 // per graph, per task: attempts started
+	attempts       [][]int32 // per graph, per task: attempts started
 	cancelReturned int32
-	preErr error
-	cancel   context.CancelFunc
-	rng      uint64
-	sentinels []error
-	out      *plainWriter
+	preErr         error
+	cancel         context.CancelFunc
+	rng            uint64
+	sentinels      []error
+	out            *plainWriter
 }
 
 func (r *runner) log(e Event) int {
